@@ -8,12 +8,14 @@
 (***************************************************************************)
 EXTENDS EvalOp, Families, Json, IOUtils
 
-CONSTANTS GraphSize, Members         \* Members: "graphs" or "inst"
+CONSTANTS GraphSize, Members,        \* Members: "graphs", "inst", "file" or "graphs-<kind of the first declaration>"
+          FirstKind                  \* for "graphs-first": the slice of RecGraphs to enumerate
 
 VARIABLE prog
 \* oracle mode: programs supplied by the driver (random composites)
 FilePrograms == ndJsonDeserialize(IOEnv.PROGRAMS)
 Init == prog \in (CASE Members = "graphs" -> RecGraphs(GraphSize)
+                    [] Members = "graphs-first" -> RecGraphsFirst(GraphSize, FirstKind)
                     [] Members = "file" -> {FilePrograms[i] : i \in 1..Len(FilePrograms)}
                     [] OTHER -> {RecInst(nm) : nm \in RecInstNames})
 Next == UNCHANGED prog
